@@ -113,13 +113,16 @@ def apply_contract(interp, c, fv, args, kwargs, node):
             ctx.assume(truthy(spec.eval(e, env)), f"callee-ensures:{c.key}[{k}]")
         return result
     cls = outcomes[d]
+    exc = VExc(cls, [])
+    for fname, fshape in c.raises_fields.get(cls, {}).items():
+        exc.fields[fname] = interp.fresh(fshape, f"exc_{cls}_{fname}")
+    env.vars["exc"] = exc
     ctx.assume(truthy(spec.eval(c.raises[cls], env)), f"callee-raises-cond:{c.key}[{cls}]")
     for e in c.raises_ensures.get(cls, []):
         ctx.assume(truthy(spec.eval(e, env)), f"callee-raises-ensures:{c.key}")
     if not ctx.replaying and not ctx._feasible(z3.BoolVal(True)):
         from .paths import PathEnd
         raise PathEnd()
-    exc = VExc(cls, [])
     exc.clsinfo = None
     exc.info["from_contract"] = c.key
     raise PyRaise(exc, getattr(node, "lineno", 0))
